@@ -34,8 +34,12 @@ PROP = 'C10'
 LEVEL = 'exploration'
 ERR = list(ref.ERRORS)
 
-NUMBERS = [0, 1, -1, 2, 3.0, -8, 64, 0.5, -2.5, -0.0, 1e-3, 999999.5, -1000000]
-TEXTS = ['', 'abc', 'ABC', 'Abd', 'a_c', '3', ' 3 ', '1e2', '-0.5', 'TRUE', '\u00df', 'ss']     # (sharp s: lower() and casefold() differ)
+NUMBERS = [0, 1, -1, 2, 3.0, -8, 64, 0.5, -2.5, -0.0, 1e-3, 999999.5, -1000000,
+           # small numbers with all their digits (what & shows must read back as the same number)
+           1.23456789012e-9, 1 / 81000]
+TEXTS = ['', 'abc', 'ABC', 'Abd', 'a_c', '3', ' 3 ', '1e2', '-0.5', 'TRUE', '\u00df', 'ss',
+         # numbers written with more than 32 characters
+         '3.14159265358979323846264338327950288', ' ' * 20 + '12' + ' ' * 20]     # (sharp s: lower() and casefold() differ)
 POOL = NUMBERS + TEXTS + [True, False, None] + ERR
 # texts on which only the cheap routes run: python-only / locale-only numeric spellings
 HOSTILE_TEXT = ['inf', 'nan', '-Infinity', 'false', '1_0', '1_000', '1_0.5', '0x10', '1,000', '$3', '3%', '1/2',
